@@ -76,3 +76,34 @@ Example C01_pass_on_example :
   (exists r, spec_resolved ex_gs n_c = Some r /\ length r = 2%nat).
 Proof. exact ex_pass. Qed.
 Print Assumptions C01_pass_on_example.
+
+(* ---- the CFF pre-processing pipeline, translated from /repo's current initDefaultFilters on every run ---- *)
+From U2F Require Import Filters.Pipeline Generated.Pipelines Filters.PipelineProofs.
+Theorem C01_pipeline_shape : forall o,
+  kinds (otf_default_filters o) =
+  (if color_font o then [ExplodeColorLayerGlyphs] else []) ++ [DecomposeComponents] ++
+  (if removeOverlaps o then [RemoveOverlaps] else []).
+Proof. exact otf_pipeline_shape. Qed.
+Print Assumptions C01_pipeline_shape.
+
+Theorem C01_overlaps_removed_iff_requested : forall o, has RemoveOverlaps (otf_default_filters o) = removeOverlaps o.
+Proof. exact otf_overlaps_iff_requested. Qed.
+Print Assumptions C01_overlaps_removed_iff_requested.
+
+Theorem C01_naming_a_backend_changes_nothing : forall o b,
+  removeOverlaps o = false -> otf_default_filters (with_backend b o) = otf_default_filters o.
+Proof. exact otf_backend_alone_changes_nothing. Qed.
+Print Assumptions C01_naming_a_backend_changes_nothing.
+
+Theorem C01_every_composite_is_decomposed : forall o, In (DecomposeComponents, []) (otf_default_filters o).
+Proof. exact otf_decomposes_everything. Qed.
+Print Assumptions C01_every_composite_is_decomposed.
+
+Theorem C01_pipeline_fully_translated : forall o,
+  has UnknownFilter (otf_default_filters o) = false /\ has UnknownFilter (ttf_default_filters o) = false.
+Proof. exact pipelines_fully_translated. Qed.
+Print Assumptions C01_pipeline_fully_translated.
+
+Example C01_default_pipeline : kinds (otf_default_filters otf_defaults) = [DecomposeComponents].
+Proof. exact otf_default_is_decompose_only. Qed.
+Print Assumptions C01_default_pipeline.
